@@ -193,8 +193,13 @@ class NameGen:
                 comps.append('.')
             elif j < 0.3:
                 comps.append('..')
-            elif j < 0.9:
+            elif j < 0.8:
                 comps.append(self._word(RRCHARS.replace('.', ''), 1, 12))
+            elif j < 0.9:
+                # names that start or end like the special components
+                comps.append(r.choice(('.', '..', '...')) + self._word(RRCHARS.replace('.', ''), 0 if r.random() < 0.2 else 1, 10) + r.choice(('', '', '.', '..')))
+                if comps[-1] in ('.', '..'):
+                    comps[-1] += 'x'
             else:
                 lo, hi = r.choice(((100, 120), (200, 249), (250, 250), (255, 255), (256, 300)))
                 comps.append(self._word(RRCHARS.replace('.', ''), min(lo, maxcomp), min(hi, maxcomp)))
